@@ -147,6 +147,17 @@ VF_OP(pack_from_min_aligned_objects, In4<i32>, "iiii"){
 	glm::uint64 h4=glm::packHalf4x16(*v); glm::uint64 u4=glm::packUnorm4x16(*v); glm::uint32 s4=glm::packSnorm4x8(*v); glm::uint32 f3=glm::packF2x11_1x10(glm::vec3(*v)); (void)h4; (void)u4; (void)s4; (void)f3;
 	double dd=glm::packDouble2x32(*f); glm::uvec2 du=glm::unpackDouble2x32(dd); if(du!=glm::uvec2(*f)) c.fail("packDouble2x32(min-aligned):round-trip-changed",(i32)du[1],(i32)(*f)[1]);
 }
+// iround / uround over their whole documented domains (uround: 0 <= x with the nearest integer representable in uint, i.e. up to 2^32-1),
+// scalar and every vector length
+VF_OP(round_to_integer, In4<double>, "dddd"){
+	double a[4]; for(int i=0;i<4;i++){ double x=std::fabs(in.v[i]); if(!(x<4294967295.49)) x=4294967295.0-(double)i; a[i]=x; }
+	float fa[4]; for(int i=0;i<4;i++){ fa[i]=(float)a[i]; if(!(fa[i]<4294967296.0f)) fa[i]=4294967040.0f; }
+	{ glm::dvec4 v(a[0],a[1],a[2],a[3]); auto r=glm::uround(v); auto r3=glm::uround(glm::dvec3(v)); auto r2=glm::uround(glm::dvec2(v)); auto r1=glm::uround(glm::dvec1(v.x)); for(int i=0;i<4;i++){ unsigned w=glm::uround(a[i]); if(r[i]!=w||(i<3&&r3[i]!=w)||(i<2&&r2[i]!=w)||(i<1&&r1[i]!=w)) c.fail("uround(dvec):component-differs-from-scalar",(double)r[i],(double)w); if((double)w!=std::round(a[i])) c.fail("uround(double):not-the-nearest-integer",(double)w,std::round(a[i])); } }
+	{ glm::vec4 v(fa[0],fa[1],fa[2],fa[3]); auto r=glm::uround(v); auto r3=glm::uround(glm::vec3(v)); auto r2=glm::uround(glm::vec2(v)); for(int i=0;i<4;i++){ unsigned w=glm::uround(fa[i]); if(r[i]!=w||(i<3&&r3[i]!=w)||(i<2&&r2[i]!=w)) c.fail("uround(vec):component-differs-from-scalar",(double)r[i],(double)w); } }
+	double b[4]; for(int i=0;i<4;i++){ double x=std::fabs(in.v[i]); /* iround is documented for x >= 0 */ if(!(x<2147483647.49)) x=2147483647.0-(double)i; b[i]=x; }
+	{ glm::dvec4 v(b[0],b[1],b[2],b[3]); auto r=glm::iround(v); auto r3=glm::iround(glm::dvec3(v)); for(int i=0;i<4;i++){ int w=glm::iround(b[i]); if(r[i]!=w||(i<3&&r3[i]!=w)) c.fail("iround(dvec):component-differs-from-scalar",(double)r[i],(double)w); } }
+	{ float fb[4]; for(int i=0;i<4;i++){ fb[i]=(float)b[i]; if(!(std::fabs(fb[i])<2147483648.0f)) fb[i]=2147483520.0f; } glm::vec4 v(fb[0],fb[1],fb[2],fb[3]); auto r=glm::iround(v); auto r2=glm::iround(glm::vec2(v)); for(int i=0;i<4;i++){ int w=glm::iround(fb[i]); if(r[i]!=w||(i<2&&r2[i]!=w)) c.fail("iround(vec):component-differs-from-scalar",(double)r[i],(double)w); } }
+}
 VF_OP(pointer_builders_f32, In4<float>, "ffff"){ k_ptr<float>(in,c); }
 VF_OP(pointer_builders_f64, In4<double>, "dddd"){ k_ptr<double>(in,c); }
 VF_OP(pointer_builders_i32, In4<i32>, "iiii"){ k_ptr<i32>(in,c); }
@@ -176,7 +187,7 @@ static void workload(){
 		}
 		{ InC<i32> a; InC<u32> b; InC<i64> e; InC<u64> g; for(int k=0;k<4;k++){ a.v[k]=rint_<i32>(c.rng,L32); b.v[k]=rint_<u32>(c.rng,LU32); e.v[k]=rint_<i64>(c.rng,L64); g.v[k]=rint_<u64>(c.rng,LU64); }
 			a.a=(int)(i%33); a.b=(int)c.rng.below(33-a.a); b.a=a.a; b.b=a.b; e.a=(int)(i%65); e.b=(int)c.rng.below(65-e.a); g.a=e.a; g.b=e.b; vf::run(c,counts_i32,a); vf::run(c,counts_u32,b); vf::run(c,counts_i64,e); vf::run(c,counts_u64,g); }
-		{ In4<float> pf; In4<double> pd; In4<i32> pi; for(int k=0;k<4;k++){ pf.v[k]=(float)(c.rng.range(-1000,1000)*0.25); pd.v[k]=c.rng.range(-1000,1000)*0.125; pi.v[k]=rint_<i32>(c.rng,L32); } vf::run(c,pointer_builders_f32,pf); vf::run(c,pointer_builders_f64,pd); vf::run(c,pointer_builders_i32,pi); vf::run(c,pack_from_min_aligned_objects,pi);  vf::run(c,qualifier_conv_f32,pf); vf::run(c,qualifier_conv_f64,pd); vf::run(c,qualifier_conv_i32,pi); { In4<u32> pu; for(int k=0;k<4;k++) pu.v[k]=(u32)c.rng.next(); vf::run(c,qualifier_conv_u32,pu); } }
+		{ In4<float> pf; In4<double> pd; In4<i32> pi; for(int k=0;k<4;k++){ pf.v[k]=(float)(c.rng.range(-1000,1000)*0.25); pd.v[k]=c.rng.range(-1000,1000)*0.125; pi.v[k]=rint_<i32>(c.rng,L32); } vf::run(c,pointer_builders_f32,pf); vf::run(c,pointer_builders_f64,pd); vf::run(c,pointer_builders_i32,pi); { In4<double> rd; for(int k=0;k<4;k++){ int m=(int)(c.rng.next()%4); rd.v[k]= m==0? c.rng.uniform(0,4294967295.0): m==1? 2147483648.0+c.rng.uniform(-3,3): m==2? 4294967295.0-c.rng.uniform(0,600): c.rng.uniform(-2147483647.0,2147483647.0); } vf::run(c,round_to_integer,rd); } vf::run(c,pack_from_min_aligned_objects,pi);  vf::run(c,qualifier_conv_f32,pf); vf::run(c,qualifier_conv_f64,pd); vf::run(c,qualifier_conv_i32,pi); { In4<u32> pu; for(int k=0;k<4;k++) pu.v[k]=(u32)c.rng.next(); vf::run(c,qualifier_conv_u32,pu); } }
 		{ In4<i32> a; In4<u32> b; In4<i64> e; In4<i16> h; for(int k=0;k<4;k++){ a.v[k]=rint_<i32>(c.rng,L32); b.v[k]=rint_<u32>(c.rng,LU32); e.v[k]=rint_<i64>(c.rng,L64); h.v[k]=rint_<i16>(c.rng,L16); }
 			for(int k=2;k<4;k++){ if(a.v[k]==0) a.v[k]=3; if(b.v[k]==0) b.v[k]=5; if(e.v[k]==0) e.v[k]=-7; if(h.v[k]==0) h.v[k]=9; } for(int k=0;k<2;k++){ if(a.v[k]==std::numeric_limits<i32>::min()) a.v[k]++; if(e.v[k]==std::numeric_limits<i64>::min()) e.v[k]++; if(h.v[k]==std::numeric_limits<i16>::min()) h.v[k]++; }
 			vf::run(c,div_i32,a); vf::run(c,div_u32,b); vf::run(c,div_i64,e); vf::run(c,div_i16,h); }
